@@ -14,7 +14,9 @@ from mc.codec import NAN, Decoder, cell_eq, is_nan, show
 
 PROPERTY = 'C06'
 ASSUMPTIONS = [
-    'cells are None, ints, floats (incl. NaN), strings; +-inf cells and NaN inside a value list are excluded (statement silent)',
+    'cells are None, ints, floats (incl. NaN), strings; NaN inside a value list is excluded (statement silent); +-inf cells and condition values only in suite extras, '
+    'where only what holds under both readings of "NaN" (the statement\'s, and the library\'s documented is_nan = "nan or inf") is asserted: partition, order, columns, finite cells '
+    'never match a NaN / infinite condition, the equal infinite cell always does',
     'conditions: one keyword value / list / None / NaN / compiled regex per column, conjunctions of them, the dict spelling, or ONE callable',
     'find_x is only checked when the selected x cells are not NaN (set() de-duplication of distinct NaN objects is unspecified)',
 ]
@@ -310,9 +312,102 @@ def check(case):
     return out
 
 
+# ------------------------------------------------------------------------------------------------ suite extras
+# (1) infinite cells / condition values.  The library reads a NaN condition as "not a finite number" (pyg_base.is_nan is documented as "nan or inf"), the
+#     statement says NaN; the two readings differ on which side an infinite cell falls, so only what holds under BOTH is asserted: inc and exc partition the
+#     table in original order with all columns, a finite / None / string cell never satisfies a NaN or infinite condition, and the cell equal to an infinite
+#     condition value always does.
+# (2) column names containing underscores: find_<col> is resolved by the whole name.
+
+ECELLS = ['inf', '-inf', 'nan', 1.0, None, 'a']
+ECONDS = [['kw', 'inf'], ['kw', '-inf'], ['kw', 'nan'], ['kw', ['inf']], ['kw', [1.0, 'inf']], ['dict', 'inf'], ['dict', '-inf'], ['kw+y', 'inf'], ['kw+y', 'nan']]
+
+
+def _ecell(c):
+    return float(c) if isinstance(c, str) and c in ('inf', '-inf', 'nan') else c
+
+
+def gen_extras(maxrows):
+    for n in range(maxrows + 1):
+        for xs in itertools.product(range(len(ECELLS)), repeat=n):
+            yield {'x': list(xs)}
+
+
+def check_extras(case):
+    from pyg_base import dictable
+    out = Out()
+    xs = [_ecell(ECELLS[i]) for i in case['x']]
+    n = len(xs)
+    finite = lambda v: not (isinstance(v, float) and (v != v or v in (float('inf'), float('-inf'))))
+    for ci, (spell, cv) in enumerate(ECONDS):
+        out.sub()
+        val = [_ecell(u) for u in cv] if isinstance(cv, list) else _ecell(cv)
+        label = '%s x=%r on x=%s' % (spell, val, show(xs))
+        d = dictable(x=list(xs), y=list(range(n)), z=['k'] * n)
+        try:
+            if spell == 'kw':
+                inc, exc = d.inc(x=val), d.exc(x=val)
+            elif spell == 'dict':
+                inc, exc = d.inc({'x': val}), d.exc({'x': val})
+            else:
+                inc, exc = d.inc(x=val, y=[0, 1]), d.exc(x=val, y=[0, 1])
+            out.call(2)
+            iy, ey = list(inc['y']), list(exc['y'])
+        except Exception as e:
+            out.viol('inc-raised', '%s: inc / exc raised %s: %s' % (label, type(e).__name__, e), cond='inf', suite='extras')
+            continue
+        if set(inc.keys()) != {'x', 'y', 'z'} or set(exc.keys()) != {'x', 'y', 'z'}:
+            out.viol('columns-lost', '%s: columns %s / %s' % (label, list(inc.keys()), list(exc.keys())), op='inc/exc', empty=not (iy and ey))
+            continue
+        if sorted(iy + ey) != list(range(n)) or iy != sorted(iy) or ey != sorted(ey):
+            out.viol('not-a-partition', '%s: inc.y=%s exc.y=%s' % (label, iy, ey), cond='inf')
+            continue
+        if any(inc['x'][k] is not xs[i] for k, i in enumerate(iy)) or any(exc['x'][k] is not xs[i] for k, i in enumerate(ey)):
+            out.viol('wrong-rows', '%s: the x cells of the result rows are not those of the original rows' % label, op='inc/exc')
+            continue
+        for i in range(n):
+            v = xs[i]
+            ycond = spell != 'kw+y' or i in (0, 1)
+            if isinstance(val, list):
+                must_inc = any((u == v) for u in val if not (isinstance(u, float) and u != u)) and not (isinstance(v, float) and v != v) and v is not None and not isinstance(v, str)
+                must_exc = not must_inc and (finite(v) or (isinstance(v, float) and v != v))       # in a value list an infinity is an ordinary value
+            else:
+                must_inc = isinstance(v, float) and v == val and ycond                              # (NaN == NaN is False: a NaN cell under a NaN condition is judged by the main suite)
+                must_exc = finite(v) or not ycond
+            if must_inc and i not in iy:
+                out.viol('wrong-rows', '%s: row %d (x=%r) equals the condition value but is not in inc (inc.y=%s)' % (label, i, v, iy), op='inc', inf=True)
+                break
+            if must_exc and i not in ey:
+                out.viol('wrong-rows', '%s: row %d (x=%r) cannot satisfy the condition but is in inc (inc.y=%s)' % (label, i, v, iy), op='inc', inf=True)
+                break
+        out.cls('some' if iy and ey else 'one-sided')
+        if iy and ey:
+            out.nontrivial(ci)
+    # ---- underscored column names
+    if n:
+        out.sub()
+        ids = ['p%d' % i for i in range(n)]
+        d = dictable({'a': list(range(n)), 'a_id': list(ids), 'b_c': [v if finite(v) else None for v in xs], 'a_id_x': ['q'] * n})
+        for i in range(n):
+            for col, want in (('a_id', ids[i]), ('b_c', d['b_c'][i]), ('a_id_x', 'q'), ('a', i)):
+                try:
+                    got = getattr(d, 'find_' + col)(a=i)
+                    out.call()
+                    if got != want or (got is None) != (want is None):
+                        out.viol('find-wrong', 'table with columns a, a_id, b_c, a_id_x: find_%s(a=%d) returned %r expected %r' % (col, i, got, want), col='underscored')
+                except Exception as e:
+                    out.viol('find-wrong-exception', 'table with columns a, a_id, b_c, a_id_x: find_%s(a=%d) raised %s: %s' % (col, i, type(e).__name__, e), col='underscored')
+    return out
+
+
 def suites(tier, seed):
     maxrows = 4 if tier == 'quick' else 5
     return [Suite('inc_exc', lambda: gen_tables(maxrows), check,
                   rule='every x-column of length 0..%d over %d cell values x %d conditions (value, list, None, NaN, regex, conjunction, dict, '
                        'single callable, none); non-trivial = (table, condition) pairs selecting some but not all rows' % (maxrows, len(XCELLS), len(CONDS)),
-                  bounds=dict(max_rows=maxrows, cell_values=len(XCELLS), conditions=len(CONDS)))]
+                  bounds=dict(max_rows=maxrows, cell_values=len(XCELLS), conditions=len(CONDS))),
+            Suite('extras', lambda: gen_extras(maxrows - 1), check_extras,
+                  rule='every x-column of length 0..%d over {inf, -inf, NaN, 1.0, None, a} x %d conditions naming an infinite or NaN value (keyword, list, dict, conjunction): inc / exc '
+                       'partition the table in order with all columns, finite cells never match, the equal infinite cell always does; find_<col> on column names containing '
+                       'underscores (a, a_id, b_c, a_id_x); non-trivial = both sides non-empty' % (maxrows - 1, len(ECONDS)),
+                  bounds=dict(max_rows=maxrows - 1, cell_values=len(ECELLS), conditions=len(ECONDS)))]
